@@ -1,7 +1,7 @@
 /-
   C04 — the inferred schema accepts every encoded value.  Property theorems only
   (helper lemmas: JSV/Proofs/InfStore.lean, InfStruct.lean, InfEqns.lean, InfModels.lean, InfValid.lean,
-  InfSound.lean, InfNamed.lean, InfTable.lean, InfTableTree.lean, InfEmb*.lean; the model of encoding/json on the fragment is
+  InfSound.lean, InfNamed.lean, InfTable.lean, InfTableTree.lean, InfTableDeep.lean, InfEmb*.lean; the model of encoding/json on the fragment is
   JSV/Spec/EncJson.lean).
 
   Vocabulary:
@@ -15,7 +15,8 @@
     `EncJson.EntriesAccept opts st false T` (JSV/Proofs/InfTable.lean): every entry of the type table that `forType`
     meets in `T` accepts the encodings of its type (`infer_sound_table_partial`: entries without subschemas);
     `EncJson.EntriesAcceptTree opts st false T` (JSV/Proofs/InfTableTree.lean): the same for entries that are arbitrary
-    reference-free schema trees (`infer_sound_table`);
+    reference-free schema trees (`infer_sound_table`; `EntriesAcceptDeep … k`: … that may be `k` levels deeper than the
+    schema of the type itself, `infer_sound_table_deep`);
   * `Spec.specEnvNoRefs st re` : the Spec environment over the store, draft 2020-12, no references, any
     regexp matcher;
   * `EncJson.depth T` : the nesting depth of the schema, the fuel the Spec needs.
@@ -26,6 +27,7 @@ import JSV.Proofs.InfTable
 import JSV.Proofs.InfTableTree
 import JSV.Proofs.InfTableDeep
 import JSV.Proofs.ResIso4
+import JSV.Props.C20
 import JSV.Proofs.InfEmbSound
 import JSV.Proofs.InfEmbNamed
 import JSV.Proofs.EncEmbCons
@@ -213,10 +215,12 @@ theorem infer_sound_initial_table (opts : IOpts) (fuel : Nat) (T : GoType) (st :
     (`.named n (.basic "String")`), so this statement contains `infer_sound_named`'s marshaler types; with an empty
     table it is `infer_sound` for types with declared types (`entriesAccept_of_empty`).
 
-    Partial, what is missing: entries WITH subschemas or references (the ingredients are there: the clone validates like
-    the entry for reference-free trees, `C20.clone_validates_same_partial`; to be combined with invariance of validity
-    under the later growth of the store); an entry without a type keyword reached through a pointer (known finding D17:
-    its types become `["null"]`); an entry that rejects some encoding, of course (big.Int's, D13). -/
+    Partial, what is missing: entries WITH subschemas — now `infer_sound_table` / `infer_sound_table_deep` below, for
+    reference-free schema trees of any shape and depth — or references (`infer_sound_table_root_refs` at the root of
+    the inferred schema; below the root a `#`-rooted reference does not keep its meaning:
+    `table_entry_with_ref_unresolvable`, `table_entry_with_ref_changes_meaning`); an entry without a type keyword
+    reached through a pointer (known finding D17: its types become `["null"]`); an entry that rejects some encoding, of
+    course (big.Int's, D13). -/
 theorem infer_sound_table_partial (opts : IOpts) (fuel : Nat) (T : GoType) (st : Store) (id : NodeId) (st' : Store)
     (re : String → String → Bool) (hnfs : opts.nullForSlices = true) (hdom : InDomainN T = true)
     (hacc : EntriesAccept opts st false T) (h : forType opts fuel T st = .ok (some id, st')) (v : GoValue)
@@ -273,9 +277,12 @@ theorem no_entries_nothing_assumed (opts : IOpts) (st : Store) (h : opts.schemas
     `Iso.specBody_tableNull`), the later growth of the store and the descriptions the struct loop writes
     (`Go.namedLeaf_table`).
 
-    Not covered: entries WITH `$ref` / `$dynamicRef` (see `table_entry_with_ref_*` below: after cloning into the inferred
-    schema a `#`-rooted reference is relative to the root of the INFERRED schema, not of the entry); an entry without a
-    type keyword reached through a pointer (D17); an entry that rejects some encoding (big.Int's, D13). -/
+    Not covered: entries WITH `$ref` / `$dynamicRef` — at the root of the inferred schema they are fine
+    (`infer_sound_table_root_refs`, from C20), below the root they are not: after cloning into the inferred schema a
+    `#`-rooted reference is relative to the root of the INFERRED schema, not of the entry, so `Resolve` fails
+    (`table_entry_with_ref_unresolvable`) or the reference changes its meaning and an encoded value is rejected
+    (`table_entry_with_ref_changes_meaning`); the real package behaves the same —; an entry without a type keyword
+    reached through a pointer (D17); an entry that rejects some encoding (big.Int's, D13). -/
 theorem infer_sound_table (opts : IOpts) (fuel : Nat) (T : GoType) (st : Store) (id : NodeId) (st' : Store)
     (re : String → String → Bool) (hnfs : opts.nullForSlices = true) (hdom : InDomainN T = true)
     (hacc : EntriesAcceptTree opts st false T) (h : forType opts fuel T st = .ok (some id, st')) (v : GoValue)
@@ -327,6 +334,63 @@ example (opts : IOpts) (fuel : Nat) (T : GoType) (st : Store) (id : NodeId) (st'
     (hv : HasType T v) (fuel' : Nat) (hf : depth T ≤ fuel') :
     Spec.valid (specEnvNoRefs st' re) fuel' id (encode T v) = some true :=
   infer_sound_table opts fuel T st id st' re hnfs hdom (leaf_entries_are_tree_entries opts st T false hacc) h v hv fuel' hf
+
+/-! ### an entry WITH references at the root of the inferred schema -/
+
+/-- **a declared type with an entry, at the ROOT** (`For[Point]()` where `TypeSchemas[Point]` is set; by value): the
+    inferred schema is `CloneSchemas` of the entry, so — C20 `clone_validates_same` — if `Resolve` of the entry returns
+    normally (self-contained: no Loader document), `Resolve` of the inferred schema, same options and base URI, returns
+    normally too, with the same draft, and every instance gets from it exactly the Spec result it gets from the entry:
+    whatever `$ref`, `$dynamicRef`, `$id`, `$anchor`, `$defs` the entry contains.  This is the one position where a
+    `#`-rooted reference of an entry keeps its meaning (`table_entry_with_ref_unresolvable`,
+    `table_entry_with_ref_changes_meaning` for the others). -/
+theorem infer_table_root_refs (opts : IOpts) (fuel : Nat) (n : String) (u : GoType) (sid : NodeId) (st : Store)
+    (r : Option NodeId) (st' : Store) (hl : Json.lookup n opts.schemas = some sid)
+    (env : Go.Env) (hnd : Go.RIso.NoDocs env)
+    (hroom : st.size + Go.cloneCount st (st.size + 1) sid ≤ 1000000000)
+    (rfuel : Nat) (base : String) (rs : Go.Resolved)
+    (hres : Go.resolve { env with st := st } rfuel sid base = .ok rs)
+    (h : forType opts (fuel + 1) (.named n u) st = .ok (r, st')) :
+    ∃ id rs', r = some id ∧ Go.resolve { env with st := st' } rfuel id base = .ok rs' ∧
+      rs.draft = rs'.draft ∧ rs.log = rs'.log ∧
+      ∀ (reMatch : String → String → Bool) (vfuel : Nat) (j : Json),
+        Spec.evalFuel (Go.RIso.specOf st' rs' reMatch) vfuel [] id j =
+          Spec.evalFuel (Go.RIso.specOf st rs reMatch) vfuel [] sid j := by
+  obtain ⟨c, st1, rs', hc, hr', e1, e2, e3⟩ := C20.clone_validates_same st sid env hnd hroom rfuel base rs hres
+  change inferStep opts (inferFuel opts fuel) (.named n u) [] st = _ at h
+  rw [inferStep_table (t := .named n u) rfl rfl rfl hl, hc, Res.bind_ok] at h
+  simp only at h
+  cases hcn : st1.get? c with
+  | none => rw [hcn] at h; cases h
+  | some cn =>
+    rw [hcn, Bool.and_false] at h
+    simp only at h
+    have : tableNull false cn = cn := rfl
+    rw [this, set!_get?_self hcn] at h
+    cases h
+    exact ⟨c, rs', rfl, hr', e1, e2, e3⟩
+
+/-- … hence soundness there: if the entry, resolved, accepts the encodings of the type, so does the inferred schema -/
+theorem infer_sound_table_root_refs (opts : IOpts) (fuel : Nat) (n : String) (u : GoType) (sid : NodeId) (st : Store)
+    (id : NodeId) (st' : Store) (hl : Json.lookup n opts.schemas = some sid)
+    (env : Go.Env) (hnd : Go.RIso.NoDocs env)
+    (hroom : st.size + Go.cloneCount st (st.size + 1) sid ≤ 1000000000)
+    (rfuel : Nat) (base : String) (rs : Go.Resolved)
+    (hres : Go.resolve { env with st := st } rfuel sid base = .ok rs)
+    (h : forType opts (fuel + 1) (.named n u) st = .ok (some id, st'))
+    (re : String → String → Bool) (vfuel : Nat)
+    (hacc : ∀ v, HasType u v → Spec.valid (Go.RIso.specOf st rs re) vfuel sid (encode u v) = some true) :
+    ∃ rs', Go.resolve { env with st := st' } rfuel id base = .ok rs' ∧
+      ∀ v, HasType (.named n u) v → Spec.valid (Go.RIso.specOf st' rs' re) vfuel id (encode (.named n u) v) = some true := by
+  obtain ⟨id', rs', hid, hr', -, -, e⟩ :=
+    infer_table_root_refs opts fuel n u sid st (some id) st' hl env hnd hroom rfuel base rs hres h
+  cases hid
+  refine ⟨rs', hr', fun v hv => ?_⟩
+  simp only [HasType] at hv
+  simp only [encode]
+  unfold Spec.valid
+  rw [e re vfuel (encode u v)]
+  exact hacc v hv
 
 /-! ### the hypotheses of `infer_sound_named` are satisfiable, and needed (labelled tests)
 
@@ -758,7 +822,7 @@ def resolvedValid (st : Store) (root : NodeId) (j : Json) : Res (Option Bool) :=
 /-- the entry on its own resolves and accepts `{"lat":1.5,"lon":2}` -/
 example : resolvedValid refStore 3 (.obj [("lat", .num (3/2)), ("lon", .num 2)]) = .ok (some true) := by decide +kernel
 
-/-- at the ROOT of the inferred schema (`For[Point]`) the clone resolves like the entry (C20 `clone_validates_same`) -/
+/-- at the ROOT of the inferred schema (`For[Point]`) the clone resolves like the entry (`infer_table_root_refs`) -/
 example : (match forType { schemas := [("Point", 3)] } 2 (.named "Point" (.basic "Bool")) refStore with
     | .ok (some id, st') => resolvedValid st' id (.obj [("lat", .num (3/2)), ("lon", .num 2)])
     | _ => .panic) = .ok (some true) := by decide +kernel
